@@ -104,6 +104,9 @@ def random_spec(rng, shapes=None, strategy=None, plugins=None):
     else:
         raise ValueError(shape)
     spec['shape'] = shape
+    if shape in ('joined', 'joined3') and rng.random() < 0.3:
+        # the root class loads its subclass tables eagerly (continuum copies the setting to the version classes)
+        spec['classes'][0]['with_polymorphic'] = '*'
     if shape in ('articles', 'articles_excl', 'comment', 'joined', 'joined3') and rng.random() < 0.2:
         # a deferred column (loaded only on access): `content` of the class that has one
         for c in spec['classes']:
@@ -351,3 +354,23 @@ def core_sp_case(rng):
         prog += [['set', 'Article', [1], 'name', 3]]
     prog += [['commit'], ['set', 'Tag', [2], 'name', 3], ['commit']]
     return {'spec': spec, 'autoflush': False, 'program': prog, 'family': 'core_statements_and_savepoints'}
+
+
+def core_cancel_case(rng):
+    """a Core statement on the association table in a transaction whose commit has something to flush that changes
+    nothing versioned in the end (a link added and taken back, a same-value assignment)"""
+    spec = envs.shape_m2m({'strategy': rng.choice(['validity', 'subquery'])}, plugins=[])
+    spec['shape'] = 'm2m'
+    style = lambda: rng.choice(['params', 'values'])
+    prog = [['add', 'Article', [1], {'name': 1}], ['add', 'Tag', [1], {'name': 1}], ['add', 'Tag', [2], {'name': 1}], ['commit'],
+            ['core_link', 'Article', [1], 'tags', 'Tag', [1], style()]]
+    k = rng.random()
+    if k < 0.5:
+        prog += [['link', 'Article', [1], 'tags', 'Tag', [2]], ['unlink', 'Article', [1], 'tags', 'Tag', [2]]]
+    elif k < 0.8:
+        prog += [['set', 'Tag', [2], 'name', 1]]
+    prog += [['commit'], ['core_unlink', 'Article', [1], 'tags', 'Tag', [1]]]
+    if rng.random() < 0.5:
+        prog += [['link', 'Tag', [2], 'articles', 'Article', [1]], ['unlink', 'Tag', [2], 'articles', 'Article', [1]]]
+    prog += [['commit'], ['link', 'Article', [1], 'tags', 'Tag', [1]], ['commit']]
+    return {'spec': spec, 'autoflush': False, 'program': prog, 'family': 'core_statement_and_cancelling_orm_changes'}
